@@ -1342,10 +1342,7 @@ class TexArgs(list):
 
         # in the proxy `.all`, the new argument goes right before the
         # argument it will precede in the list
-        if i == len(self):
-            j = len(self.all)
-        else:
-            j = [k for k, a in enumerate(self.all) if a is self[i]][0]
+        j = self.__slot(i)
 
         if isinstance(arg, (TexGroup, TexCmd)):
             super().insert(i, arg)
@@ -1396,9 +1393,16 @@ class TexArgs(list):
         >>> arguments[0]
         BraceGroup('arg0')
         """
-        item = super().pop(i)
-        j = [k for k, a in enumerate(self.all) if a is item][0]
-        return self.all.pop(j)
+        n = len(self)
+        super().pop(i)
+        return self.all.pop(self.__slot(i if i >= 0 else n + i))
+
+    def __slot(self, i):
+        """Position in the proxy `.all` of the argument at list index `i`, by
+        counting (the same argument may be in the list more than once); the
+        whitespace kept in `.all` is not in the list."""
+        slots = [k for k, a in enumerate(self.all) if not isinstance(a, str)]
+        return slots[i] if i < len(slots) else len(self.all)
 
     def reverse(self):
         r"""Reverse both the list and the proxy `.all`.
